@@ -126,7 +126,8 @@ struct World3 {
       lastTouch = m;
       if (unjudged) { lastRead = got; return "ok"; }
       if (got != want) {
-        const char* cls = set_matched_true_time ? "resync-to-current-second-keeps-old-phase" : (set_matched_stale ? "set-ignored-because-stale-epoch-equal" : "reading-wrong");
+        // the known finding D12 is a deviation of at most one second (old sub-second phase kept); anything larger is a different failure
+        const char* cls = (set_matched_true_time && got - want >= -1 && got - want <= 1) ? "resync-to-current-second-keeps-old-phase" : (set_matched_stale ? "set-ignored-because-stale-epoch-equal" : "reading-wrong");
         r = fmt("bad:%s got=%lld want=%lld", cls, (long long)got - T0, want == INT32_MIN ? (long long)INT32_MIN : (long long)want - T0);
       } else if (init && lastRead != INT64_MIN && got < lastRead) r = "bad:reading-decreased";
       if (clk.isInit() != init) r = "bad:isInit";
